@@ -138,6 +138,7 @@ def handleGen (vectors ctx ir : String) : String :=
       let firstErr : Option GenHlsl.GenErr := gens.findSome? (fun g => match g.2 with | .error e => some e | .ok _ => none)
       match firstErr with
       | some (.panic site) => "panic " ++ panicCategory site
+      | some (.diag e) => "diagnostic GenerateError(" ++ e ++ ")"
       | some (.unsupported _) => "unsupported"
       | none =>
         match gens.find? (·.1 == fn.id) with
